@@ -206,7 +206,7 @@ func c11RejectCase(tier string, seed int64, idx int, scratch string) rt.CaseResu
 	defer in.Close()
 	defer verif.SetWriteFault(nil)
 	defer verif.SetOpFault(nil)
-	sizes := []int{0, 1, 2047, 2048, 2049, 100000, 1 << 20, 4<<20 - 5, 4<<20 - 4, 4 << 20, 4<<20 + 17, 9<<20 + 1}
+	sizes := []int{0, 1, 2047, 2048, 2049, 100000, 1 << 20, 4<<20 - 5, 4<<20 - 4, 4 << 20, 4<<20 + 17, 9<<20 + 1, 17<<20 + 3}
 	for round := 0; round < tierN(tier, 2, 4); round++ {
 		for _, size := range sizes {
 			for _, api := range []string{"set", "setreader", "create"} {
